@@ -282,7 +282,7 @@ def shard(tier, i, n, seed):
         idx += 1
         if (idx + seed) % n != i:
             continue
-        guarded(R, lambda: check_encoding(idx, name, form, T, v, e, tier, R), {'name': name, 'form': form, 'T': T, 'v': v, 'enc': e}, CM.type_features(T), idx)
+        guarded(R, lambda: check_encoding(idx, name, form, T, v, e, tier, R), {'name': name, 'form': form, 'T': T, 'v': v, 'enc': e}, CM.type_features(T), idx, cpu_limit=180)
         R.extra['encodings'] += 1
         if idx % 211 == seed % 211:
             R.sample({'name': name, 'form': form, 'encoding': e.hex(), 'cuts': len(e)})
